@@ -598,6 +598,13 @@ def run(ctx):
         rows += table_rule(ctx, cname, '_get_event_handler', event_states,
                            spec_event, names_event)
     ctx.extra['event_table_rows'] = rows
+    ctx.rule('C13.R6', 'the handler tables of different namespaces are '
+             'distinct objects', floor=2)
+    from .common import shared_table_aliasing
+    shared_table_aliasing(
+        ctx, ('handlers', 'namespace_handlers'), 'a handler registered for '
+        'one namespace is found (at the highest precedence) for the same '
+        'event on every other namespace')
     ctx.rule('C13.R2', 'namespace-handler decision table', floor=8)
     for cname in ('BaseServer', 'BaseClient'):
         table_rule(ctx, cname, '_get_namespace_handler', ns_states, spec_ns,
